@@ -5,6 +5,6 @@ TIER=$1; SEED=$2; shift 2
 PROPS=${@:-C01 C02 C03 C04 C05 C06 C07 C08 C09 C10 C11 C12 C13 C14 C15 C16 C17 C18 C19}
 for p in $PROPS; do
   t0=$(date +%s)
-  VERIF_SEED=$SEED python3 check.py $p --tier $TIER --no-evidence 2>&1 | grep -E "^(VIOLATION|KNOWN|INCONCLUSIVE|property=|  signature)" | cut -c1-260 | head -12
+  VERIF_SEED=$SEED python3 check.py $p --tier $TIER --no-evidence 2>&1 | grep -a -E "^(VIOLATION|KNOWN|INCONCLUSIVE|property=|  signature)" | cut -c1-260 | head -12
   echo "  -> $p seed=$SEED tier=$TIER exit=${PIPESTATUS[0]} $(( $(date +%s) - t0 ))s"
 done
